@@ -9,8 +9,9 @@ CONSTANTS
   TermIsForced = FALSE
   SecondStopHangs = FALSE
   AwaitsLastWorkerOnly = FALSE
+  WakeAcceptFirst = FALSE
 SPECIFICATION Spec
 VIEW View
-INVARIANTS C06_GracefulWaits C06_NoDispatchAfterCompletion C06_SignalKinds
+INVARIANTS C06_GracefulWaits C06_GracefulLetsFinish C06_NoDispatchAfterCompletion C06_SignalKinds
 PROPERTIES Steps
 CHECK_DEADLOCK FALSE
